@@ -32,6 +32,16 @@ func (r *reporter) verifAtRecv() {
 	verifhook.AtIf("m3p_recv", func() bool { return len(r.metCh) > 0 })
 }
 
+// verifGot reports every item the batching loop dequeues: its charged size
+// and whether it is a metric (b = 1) or a flush marker (b = 0).
+func (r *reporter) verifGot(smet sizedMetric) {
+	set := int64(0)
+	if smet.set {
+		set = 1
+	}
+	verifhook.Log("m3p_got", int64(smet.size), set, smet.bucketID)
+}
+
 // VerifState is the projection of a reporter's handshake state.
 type VerifState struct {
 	Pending   uint64
